@@ -12,6 +12,12 @@ type PropDef struct {
 var propOrder = []string{"C01", "C02", "C03", "C04", "C05", "C06", "C07", "C08", "C09", "C11", "C12", "C13", "C14", "C15", "C16", "C17", "C18", "C19", "C20"}
 
 var props = map[string]*PropDef{
+	"C15": {
+		Rules:      []string{"ALIAS-1"},
+		Decided:    "(in progress)",
+		NotDecided: "(in progress)",
+		Technique:  "structural",
+	},
 	"C17": {
 		Rules:      []string{"PREC-1", "USER-1", "USER-2", "ERR-1"},
 		Decided:    "(in progress)",
